@@ -17,7 +17,7 @@ import vlib
 
 PROP = "C20"
 PROP_V = "theories/Properties/C20.v"
-C20_FILES = ["C20/Model.v", "C20/Interleave.v", "C20/Locks.v", "C20/Inventory.v", "C20/Reviewed.v",
+C20_FILES = ["C20/Model.v", "C20/Interleave.v", "C20/Locks.v", "C20/SeqRun.v", "C20/Inventory.v", "C20/Reviewed.v",
              "Gen/C20_Globals.v", "C20/Main.v", "Properties/C20.v"]
 GORACE = "halt_on_error=1 atexit_sleep_ms=0 exitcode=66 history_size=2"
 
